@@ -237,6 +237,9 @@ Proof.
   - apply dec_bytes_good.
   - eapply good_bind; [apply dec_bytes_good|]. intros v s1 Fr1. cbv beta iota.
     destruct v; try exact I. apply good_ok.
+  - (* BigDecimal *)
+    eapply good_bind; [apply dec_string_good|]. intros v s1 Fr1. cbv beta iota.
+    destruct v; try exact I. destruct (BigDec.bd_parse bs); [apply good_ok | exact I].
   - (* DateTime<Utc> *)
     eapply good_bind; [apply read_be_good|]. intros y s2 Fr2. cbv beta iota.
     destruct (valid_ts x y); [apply good_ok | exact I].
